@@ -88,10 +88,13 @@ func parsimonyUPPASS(cur, prev *tree.Node, a align.Alignment, seqs []*AncestralS
 				possibilities = align.IupacCode[c]
 			} else {
 				if c == align.ALL_AMINO {
+					// All amino acids: every character of the alphabet but
+					// the gap and the "*" added after it
 					for k := range charToIndex {
-						possibilities = append(possibilities, k)
+						if k != '-' && k != '*' {
+							possibilities = append(possibilities, k)
+						}
 					}
-					possibilities = possibilities[:len(possibilities)-2]
 				} else {
 					possibilities = append(possibilities, c)
 				}
